@@ -347,3 +347,80 @@ M("dec-copy-then-inplace", ["~C07", "~C09"], DEC,
   "        x = x + c.EPSILON\n        y = y + c.EPSILON\n", "        x = x.copy()\n        x += c.EPSILON\n        y = y + c.EPSILON\n")
 M("metric-local-inplace", ["~C07", "~C06", "~C08"], DIST,
   "    dist = np.fabs(x - y)\n\n    return np.amax(dist)", "    dist = x - y\n    dist = np.fabs(dist)\n\n    return np.amax(dist)")
+
+# ---------------------------------------------------------------------------
+# non-interference (C09)
+# ---------------------------------------------------------------------------
+M("pred-writes-model-cost", ["C09"], SUP,
+  "                    min_cost = temp_min_cost\n                    conqueror = l\n",
+  "                    min_cost = temp_min_cost\n                    self.subgraph.nodes[l].cost = temp_min_cost\n                    conqueror = l\n")
+M("pred-caches-label-on-model", ["C09"], SUP,
+  "            pred_subgraph.nodes[i].predicted_label = current_label\n",
+  "            pred_subgraph.nodes[i].predicted_label = current_label\n            self.subgraph.nodes[conqueror].predicted_label = current_label\n")
+M("mark-nodes-cuts-path", ["C09", "C17"], SUBG,
+  "            self.nodes[i].relevant = c.RELEVANT\n            i = self.nodes[i].pred\n",
+  "            self.nodes[i].relevant = c.RELEVANT\n            j = self.nodes[i].pred\n            self.nodes[i].pred = c.NIL\n            i = j\n")
+M("pred-label-sticky", ["C09", "C03"], SUP,
+  "            # The current label will be `k` node's predicted label\n            current_label = self.subgraph.nodes[k].predicted_label\n",
+  "            if i == 0:\n                current_label = self.subgraph.nodes[k].predicted_label\n")
+M("unspred-reads-unfilled-slot", ["C09", "C14"], UNS,
+  "            for k in range(best_k):\n                if distances[k] != c.FLOAT_MAX:\n                    neighbour = int(neighbours_idx[k])\n",
+  "            for k in range(best_k):\n                if True:\n                    neighbour = int(neighbours_idx[k])\n")
+M("knnpred-buffers-inside-loop", ["~C09", "~C14"], KNN,
+  "            cost = c.FLOAT_MAX * -1\n\n            distances.fill(c.FLOAT_MAX)\n",
+  "            cost = c.FLOAT_MAX * -1\n\n            distances.fill(c.FLOAT_MAX)\n            neighbours_idx.fill(0)\n")
+
+# ---------------------------------------------------------------------------
+# metrics (C06, C08, C11)
+# ---------------------------------------------------------------------------
+M("chord-revert-f2", ["C08", "C04"], DIST, "    return max(dist, 0.0) ** 0.5", "    return dist**0.5")
+M("gower-hardcoded-dim", ["C06"], DIST, "    return np.sum(dist) / x.shape[0]", "    return np.sum(dist) / 4")
+M("canberra-fabs-dropped", ["C06", "C08"], DIST,
+  "    dist = np.fabs(x - y) / (np.fabs(x) + np.fabs(y))", "    dist = (x - y) / (np.fabs(x) + np.fabs(y))")
+M("chi-squared-constant", ["C06"], DIST, "    return 0.5 * np.sum(dist)\n\n\n@d.avoid_zero_division\n@njit(cache=True)\ndef chord",
+  "    return 1.0 * np.sum(dist)\n\n\n@d.avoid_zero_division\n@njit(cache=True)\ndef chord")
+M("registry-swapped", ["C06"], DIST,
+  "    \"neyman\": neyman_distance,", "    \"neyman\": pearson_distance,")
+M("chebyshev-sum-for-max", ["C06"], DIST, "    return np.amax(dist)", "    return np.sum(dist)")
+M("hassanat-branch-edited", ["C06"], DIST,
+  "            dist[i] = 1 - (1 + np.minimum(x[i], y[i])) / (1 + np.maximum(x[i], y[i]))",
+  "            dist[i] = 1 - (1 + np.minimum(x[i], y[i])) / (2 + np.maximum(x[i], y[i]))")
+M("lorentzian-plus-two", ["C06", "C08"], DIST, "    dist = np.log(1 + np.fabs(x - y))", "    dist = np.log(2 + np.fabs(x - y))")
+M("squared-decorator-removed", ["C06", "C08"], DIST,
+  "@d.avoid_zero_division\n@njit(cache=True)\ndef squared_distance", "@njit(cache=True)\ndef squared_distance")
+M("whitelist-entry-dropped", ["C06"], OPFC, "            \"vicis_symmetric3\",\n            \"vicis_wave_hedges\",\n        ]:",
+  "            \"vicis_symmetric3\",\n        ]:")
+M("registry-entry-dropped", ["C06"], DIST, "    \"vicis_wave_hedges\": vicis_wave_hedges_distance,\n", "")
+M("knn-ctor-hardcodes-distance", ["C06"], KNN,
+  "        super(KNNSupervisedOPF, self).__init__(distance, pre_computed_distance)",
+  "        super(KNNSupervisedOPF, self).__init__(\"log_squared_euclidean\", pre_computed_distance)")
+M("opf-lookup-default", ["C06"], OPFC, "        self.distance_fn = d.DISTANCES[distance]",
+  "        self.distance_fn = d.DISTANCES[\"log_squared_euclidean\"]")
+M("kl-args-swapped", ["C06"], DIST, "    dist = x * np.log(x / y)\n\n    return np.sum(dist)\n\n\n@njit(cache=True)\ndef log_euclidean",
+  "    dist = y * np.log(y / x)\n\n    return np.sum(dist)\n\n\n@njit(cache=True)\ndef log_euclidean")
+M("bray-curtis-asymmetric", ["C06", "C08"], DIST, "    dist = np.sum(np.fabs(x - y)) / np.sum(x + y)", "    dist = np.sum(np.fabs(x - y)) / np.sum(x + x)")
+M("hellinger-missing-two", ["C06"], DIST, "    dist = 2 * (x**0.5 - y**0.5) ** 2", "    dist = (x**0.5 - y**0.5) ** 2")
+M("cosine-offset", ["C06", "C08"], DIST,
+  "    dist = 1 - (np.sum(x * y) / (np.sum(x**2) ** 0.5 * np.sum(y**2) ** 0.5))\n\n    return dist",
+  "    dist = 1.5 - (np.sum(x * y) / (np.sum(x**2) ** 0.5 * np.sum(y**2) ** 0.5))\n\n    return dist")
+M("euclid-log-of-difference", ["C08"], DIST,
+  "    dist = euclidean_distance(x, y)\n\n    return c.MAX_ARC_WEIGHT * math.log(dist + 1)",
+  "    dist = euclidean_distance(x, y)\n\n    return c.MAX_ARC_WEIGHT * math.log(dist + 1 - 1e-12)")
+M("log-sq-euclid-not-monotone", ["C11", "C06"], DIST,
+  "    dist = squared_euclidean_distance(x, y)\n\n    return c.MAX_ARC_WEIGHT * math.log(dist + 1)",
+  "    dist = squared_euclidean_distance(x, y)\n\n    return c.MAX_ARC_WEIGHT * math.log(dist + 1) - dist")
+M("avg-euclid-plus-const", ["C11", "C06", "C08"], DIST,
+  "    return (dist / x.shape[0]) ** 0.5\n", "    return (dist / x.shape[0]) ** 0.5 + 1\n")
+M("max-arc-weight-negative", ["C11"], CONST, "MAX_ARC_WEIGHT = 100000", "MAX_ARC_WEIGHT = -100000")
+# benign rewrites
+M("sangvi-sum-of-double", ["~C06", "~C08"], DIST,
+  "    dist = (x - y) ** 2 / (x + y)\n\n    return 2 * np.sum(dist)", "    dist = 2 * (x - y) ** 2 / (x + y)\n\n    return np.sum(dist)")
+M("euclid-swapped-difference", ["~C06", "~C08", "~C11"], DIST,
+  "    dist = (x - y) ** 2\n\n    return np.sum(dist) ** 0.5\n\n\n@njit(cache=True)\ndef gaussian",
+  "    dist = (y - x) ** 2\n\n    return np.sum(dist) ** 0.5\n\n\n@njit(cache=True)\ndef gaussian")
+M("kl-log-difference", ["~C06", "~C08"], DIST,
+  "    dist = x * np.log(x / y)\n\n    return np.sum(dist)\n\n\n@njit(cache=True)\ndef log_euclidean",
+  "    dist = x * (np.log(x) - np.log(y))\n\n    return np.sum(dist)\n\n\n@njit(cache=True)\ndef log_euclidean")
+M("manhattan-np-abs", ["~C06", "~C08"], DIST,
+  "    dist = np.fabs(x - y)\n\n    return np.sum(dist)\n\n\n@njit(cache=True)\ndef matusita",
+  "    dist = np.abs(y - x)\n\n    return np.sum(dist)\n\n\n@njit(cache=True)\ndef matusita")
